@@ -1310,6 +1310,98 @@ theorem decodeRows_genRows (cols : List Col) (v : Nat) (pageSize : Option Nat) (
 
 private theorem stmtOfText_textOf : ∀ s, s < 8 → stmtOfText (textOf s) = some s := by decide +kernel
 
+/-- `eviction_resend_any_node`: the first three conjuncts of `eviction_transparent` hold on ANY node, with or without
+the extension: through any interleaving with other callers' steps the node sees PREPARE of the same text, answers
+PREPARED with the same id, and sees the EXECUTE again with the same id, complete value list, consistency, serial
+consistency, timestamp, page size and paging state. (What the caller then decodes on a node without the extension
+is the F-C14-1 / CQL v4 question.) -/
+theorem eviction_resend_any_node (st0 : State) (hinv : Inv colsOf st0) (k : Nat) (op : ExecOp) (cached : Option RMeta)
+    (uid : SId) (s : Nat)
+    (hc : st0.caller k = ⟨.exec1 op cached, .resp (.unprepared uid)⟩)
+    (hobj : op.obj < st0.nObjs) (hs : s < 8) (htext : (st0.objs op.obj).text = textOf s)
+    (hid : (st0.objs op.obj).id = idOf s (((st0.node op.node).st s).idv))
+    (hpf : ((st0.node op.node).st s).prepFail = false)
+    (ys0 ys1 ys2 : List Step)
+    (h0 : Others k ys0) (h1 : Others k ys1) (h2 : Others k ys2) :
+    let a := exec st0 ys0
+    let b := recv a k
+    let c := exec b.1 ys1
+    let d := serveStep c k
+    let e := exec d.1 ys2
+    let f := recv e k
+    b.2 = .sent op.node (.prepare (textOf s)) ∧
+    (∃ p, d.2 = .served (.prepared p) ∧ p.id = (st0.objs op.obj).id) ∧
+    (∃ rq, f.2 = .sent op.node (.execute rq) ∧ rq.id = (st0.objs op.obj).id ∧ rq.values = op.values ∧
+        rq.cl = op.cl ∧ rq.scl = op.scl ∧ rq.ts = op.ts ∧ rq.pageSize = op.pageSize ∧ rq.ps = op.ps) := by
+  intro a b c d e f
+  -- state a
+  have fa : Frame st0 a := others_frame ys0 st0 k h0
+  have inva : Inv colsOf a := inv_exec colsOf ys0 st0 hinv (others_eventsOK colsOf ys0 k h0)
+  have hca : a.caller k = ⟨.exec1 op cached, .resp (.unprepared uid)⟩ := by
+    rw [show a = exec st0 ys0 from rfl, others_caller ys0 st0 k h0]; exact hc
+  have hta : (a.objs op.obj).text = textOf s := ((fa.ident _ hobj).2).trans htext
+  -- step b: PREPARE is sent
+  have hb : b = (setCaller a k ⟨.execPrep op, .req op.node (.prepare (textOf s))⟩, .sent op.node (.prepare (textOf s))) := by
+    rw [show b = recv a k from rfl, exec_unprepared_sends_prepare a k op cached uid hca, hta]
+  have fb : Frame st0 b.1 := by
+    rw [hb]; exact ⟨fa.nodeSt, fa.nodeExt, fa.nodeOv, fa.prepared, fa.ident, fa.nObjs⟩
+  have invb : Inv colsOf b.1 := by
+    have := inv_step colsOf a (.recv k) inva (fun _ _ h => by cases h)
+    simpa [step] using this
+  have hcb : b.1.caller k = ⟨.execPrep op, .req op.node (.prepare (textOf s))⟩ := by rw [hb]; simp [setCaller]
+  -- state c
+  have fc : Frame st0 c := fb.trans (others_frame ys1 b.1 k h1)
+  have invc : Inv colsOf c := inv_exec colsOf ys1 b.1 invb (others_eventsOK colsOf ys1 k h1)
+  have hcc : c.caller k = ⟨.execPrep op, .req op.node (.prepare (textOf s))⟩ := by
+    rw [show c = exec b.1 ys1 from rfl, others_caller ys1 b.1 k h1]; exact hcb
+  -- step d: the node prepares
+  have hovc : (c.node op.node).ov = none := fc.nodeOv _ (hinv.1 op.node).1
+  have hstc : (c.node op.node).st = (st0.node op.node).st := fc.nodeSt _
+  have hserve_c := serve_plain_prepare (c.node op.node) (textOf s) s hovc (stmtOfText_textOf s hs)
+    (by rw [hstc]; exact hpf)
+  have hd : d = ({ c with node := upd c.node op.node (serve (c.node op.node) (.prepare (textOf s))).1,
+                          caller := upd c.caller k { c.caller k with wire := .resp (serve (c.node op.node) (.prepare (textOf s))).2 } },
+                 .served (serve (c.node op.node) (.prepare (textOf s))).2) := by
+    simp [show d = serveStep c k from rfl, serveStep, hcc]
+  let pid : SId := idOf s ((c.node op.node).st s).idv
+  have hpid : pid = (st0.objs op.obj).id := by rw [hid, ← hstc]
+  have fd : Frame c d.1 := by
+    have := frame_step c (.serve k) ⟨k, rfl⟩
+    simpa [step] using this
+  have invd : Inv colsOf d.1 := by
+    have := inv_step colsOf c (.serve k) invc (fun _ _ h => by cases h)
+    simpa [step] using this
+  have hcd : ∃ p, d.1.caller k = ⟨.execPrep op, .resp (.prepared p)⟩ ∧ d.2 = .served (.prepared p) ∧ p.id = pid := by
+    rw [hd, hserve_c]
+    exact ⟨_, by simp [hcc], rfl, rfl⟩
+  have hprepd : (d.1.node op.node).prepared.contains pid = true := by
+    rw [hd, hserve_c]; simp [pid]
+  obtain ⟨p, hcdp, hd2, hpidp⟩ := hcd
+  -- state e
+  have fe0 : Frame d.1 e := others_frame ys2 d.1 k h2
+  have fe : Frame st0 e := (fc.trans fd).trans fe0
+  have inve : Inv colsOf e := inv_exec colsOf ys2 d.1 invd (others_eventsOK colsOf ys2 k h2)
+  have hce : e.caller k = ⟨.execPrep op, .resp (.prepared p)⟩ := by
+    rw [show e = exec d.1 ys2 from rfl, others_caller ys2 d.1 k h2]; exact hcdp
+  have hide : p.id = (e.objs op.obj).id := by rw [hpidp, hpid, (fe.ident _ hobj).1]
+  -- step f: the EXECUTE is sent again
+  obtain ⟨cur', _, hf⟩ := exec_reprepared_resends e k op p hce hide
+  simp only at hf
+  have hf' : f = _ := hf
+  have ff : Frame e f.1 := by
+    have := frame_step e (.recv k) ⟨k, rfl⟩
+    simpa [step] using this
+  have invf : Inv colsOf f.1 := by
+    have := inv_step colsOf e (.recv k) inve (fun _ _ h => by cases h)
+    simpa [step] using this
+  let cp := cachedParams (e.node op.node).ext op.useCached cur'
+  let rq := execFrame (e.objs op.obj) op cp
+  have hcf : f.1.caller k = ⟨.exec2 op cp.cached, .req op.node (.execute rq)⟩ := by rw [hf']; simp [setCaller, cp, rq]
+  have hf2 : f.2 = .sent op.node (.execute rq) := by rw [hf']
+  have hrqid : rq.id = (st0.objs op.obj).id := (fe.ident _ hobj).1
+  exact ⟨by rw [hb], ⟨p, hd2, by rw [hpidp, hpid]⟩, ⟨rq, hf2, hrqid, rfl, rfl, rfl, rfl, rfl, rfl⟩⟩
+
+
 /-- `eviction_transparent` (history level). Let a caller `k` have an EXECUTE answered UNPREPARED (response in
 flight) by a node WITH the extension, in a state satisfying `Inv`; the statement is one the node can prepare
 (`prepFail = false`, no byzantine answer pending) and its id is the one the node assigns (no id change). Then for
